@@ -219,6 +219,13 @@ impl<'a, P: ?Sized + PathImpl> PathMutImpl<'a, P> {
 
 		self.clear();
 
+		if ends.len() == 1 && buffer.is_empty() {
+			// A single empty segment is all that is left (`/./`, `a/../`):
+			// this is the directory itself, written `/` or ``
+			// (RFC 3986, section 5.2.4, rule B).
+			return;
+		}
+
 		let mut offset = 0;
 		for end in ends {
 			let segment = unsafe { P::Segment::new_unchecked(&buffer[offset..end]) };
